@@ -420,8 +420,17 @@ func dispatchPart(c *vf.Ctx, u *refsmb.Universe) {
 			c.Case([]byte("factory"), []byte{byte(code), b2b(reply)})
 			verdict(ci, err, "factory")
 			// through Message.Unmarshal, with two settings of the flag bits that are not FLAGS_REPLY
-			for _, other := range []byte{0x00, 0x7F} {
+			// ... and with the other header fields at both ends of their ranges: the structure chosen depends on the
+			// command code and the reply flag, not on a MID, a status or a Flags2 bit
+			for bg, other := range []byte{0x00, 0x7F, 0x00, 0x7F} {
 				h := refsmb.Hdr{Protocol: [4]byte{0xFF, 'S', 'M', 'B'}, Command: byte(code), Flags: other, MID: 0x0102}
+				if bg == 2 {
+					h.MID = 0
+				}
+				if bg == 3 {
+					h.Status, h.Flags2, h.PIDHigh, h.Reserved, h.TID, h.PIDLow, h.UID, h.MID = 0xFFFFFFFF, 0xFFFF, 0xFFFF, 0xFFFF, 0xFFFF, 0xFFFF, 0xFFFF, 0xFFFF
+					h.Security = [8]byte{0xFF, 0xFF, 0xFF, 0xFF, 0xFF, 0xFF, 0xFF, 0xFF}
+				}
 				if reply {
 					h.Flags |= 0x80
 				}
